@@ -710,6 +710,10 @@ impl Formattable for &Vec<ArgItem<Identifier>> {
 impl Formattable for &Vec<ArgItem<SpecificImportArg>> {
     fn format(&self, formatter: &mut CodeFormatter) {
         for (path, comma) in *self {
+            // the trivia in front of the argument belongs to the Located wrapper
+            if let Some(t) = path.trivia.as_ref() {
+                formatter.fmt(&t.data);
+            }
             formatter
                 .fmt(&path.data.path)
                 .spc_if_next()
